@@ -1,5 +1,6 @@
 import OpcuaVerif.Common
 import OpcuaVerif.Model.C22
+import OpcuaVerif.Model.C23
 
 namespace OpcuaVerif.C22
 
@@ -102,6 +103,31 @@ def dstep (z : Sess) (toks : List String) : Sess × String :=
       | .tooMany z' out => (z', "ok res=toomany " ++ showSess z' out ++ tagStr (t1 ++ ["pub:toomany"] ++ outTags "p" z' out))
       | .panic => (z, "panic" ++ tagStr (t1 ++ t2))
     | none => (z, "bad-op")
+  | ["modify", k, l] =>
+    -- the real ModifySubscription service; the server revises the counts first (default limits)
+    match k.toNat?, l.toNat?, z.sub with
+    | some k, some l, some s =>
+      match C23.revise { minPub := 0x4059000000000000, minSamp := 0x4059000000000000, defaultKa := 10,
+                         maxKa := 30000, maxLife := 90000, maxQueue := 10 } 0x40f86a0000000000 k l with
+      | some (_, k', l') =>
+        let z' := { z with sub := some (modifySub s k' l') }
+        (z', "ok " ++ showSess z' [] ++ tagStr ["svc:modify", s!"svc:modify-st{stateNum s.state}"])
+      | none => (z, "panic")
+    | some _, some _, none => (z, "err nosub" ++ tagStr ["svc:modify-nosub"])
+    | _, _, _ => (z, "bad-op")
+  | ["enable", b] =>
+    match parseBool? b, z.sub with
+    | some b, some s =>
+      let z' := { z with sub := some (setEnabled s b) }
+      (z', "ok " ++ showSess z' [] ++ tagStr [if b then "svc:enable" else "svc:disable", s!"svc:mode-st{stateNum s.state}"])
+    | some _, none => (z, "err nosub" ++ tagStr ["svc:mode-nosub"])
+    | none, _ => (z, "bad-op")
+  | ["touch"] =>
+    match z.sub with
+    | some s =>
+      let z' := { z with sub := some (touch s) }
+      (z', "ok " ++ showSess z' [] ++ tagStr ["svc:touch", s!"svc:touch-st{stateNum s.state}"])
+    | none => (z, "err nosub" ++ tagStr ["svc:touch-nosub"])
   | ["us", st, life, ka, sent, en, ml, mka, t, na, more, req, ex] =>
     -- ONE call of `update_state` from an arbitrary position (the session is not touched)
     match st.toNat?, life.toNat?, ka.toNat?, parseBool? sent, parseBool? en, ml.toNat?, mka.toNat? with
